@@ -104,9 +104,14 @@ def chunking(ctx, prog, A):
     if okx:
         t, on_true, c, pol = exits[0]
         cn = cmp_norm(c)
-        okx = cn is not None and strip_casts(cn[1])[0] == 'load' and strip_casts(cn[1])[1] == vac and \
-            cn[2] == ('const', 0) and ((cn[0] == 'ugt' and on_true == pol) or (cn[0] == 'ne' and on_true == pol) or
-                                       (cn[0] == 'eq' and on_true != pol))
+        c0 = strip_casts(c)
+        if cn is None and c0[0] == 'load' and c0[1] == vac:
+            # `vacant == 0` / `vacant != 0` already peeled into the polarity: the loop is left when vacant is non-zero
+            okx = on_true == pol
+        else:
+            okx = cn is not None and strip_casts(cn[1])[0] == 'load' and strip_casts(cn[1])[1] == vac and \
+                cn[2] == ('const', 0) and ((cn[0] == 'ugt' and on_true == pol) or (cn[0] == 'ne' and on_true == pol) or
+                                           (cn[0] == 'eq' and on_true != pol))
     ctx.ob('C03.chunking', 'after reading, the reader leaves its loop exactly when the chunk came back short '
            '(end of file)', s.loc(exits[0][0]) if exits else s.loc(), okx,
            '; '.join(render(e[2]) for e in exits))
